@@ -139,6 +139,12 @@ def gen_cases(chk, binp):
         for kind, resave in combos:
             add(kind=kind, phase="steps", nsteps=2, atStep=1, stepMs=450, handMs=60, delayUs=rng.randint(0, 100000), bStepMs=20,
                 resave=resave, resaveEdit=edit, nameBefore=before, tag="resaved-edited")
+    # ... and with a BIG DAG (>= 250 steps: the status document the first run's endpoint answers the probe with is well over
+    # 64 KiB, in the second case over 256 KiB): the size of the definition has nothing to do with whether the file is running.
+    # The filler steps (`true`, no markers) depend on the last marked step. Generated last (ids / instants of the cases above).
+    for kind, extra, pad in (("start", rng.randint(250, 300), 0), ("retry", rng.randint(250, 280), 300)) * (1 if quick else 3):
+        add(kind=kind, phase="steps", nsteps=2, atStep=1, stepMs=450, handMs=60, delayUs=rng.randint(0, 100000), bStepMs=20,
+            resave="rename", bigExtra=extra, bigPad=pad, tag="resaved-big-dag")
     return cases
 
 
@@ -375,7 +381,7 @@ def monitor(chk, c, r):
         # (the overall label of the last record is C08's subject: a stale status written by the agent's own node-done
         #  goroutine after the final one reads "running" although every node finished - seen ~1 in 200 runs under load,
         #  with or without a second start; counted in the evidence as stale_final_status, not judged here)
-        if len(oh) != 1 or oh[0]["status"] not in (4, 1) or any(n != 4 for n in oh[0]["nodes"]) or len(oh[0]["nodes"]) != c["nsteps"] or oh[0]["onExit"] != 4:
+        if len(oh) != 1 or oh[0]["status"] not in (4, 1) or any(n != 4 for n in oh[0]["nodes"]) or len(oh[0]["nodes"]) != c["nsteps"] + c.get("bigExtra", 0) or oh[0]["onExit"] != 4:
             out.append(("C16:active-run-history-damaged", "the first run's final history is not one record with all steps and the handler succeeded: %s" % oh))
     # never two runs of the file executing steps at the same time
     ags = agents_of(r)
@@ -537,8 +543,10 @@ def run(chk, replay):
         stale += sum(1 for h in r["hist"] if h["status"] == 1 and h["nodes"] and all(n == 4 for n in h["nodes"]))
         vs = monitor(chk, c, r)
         sfx = (":resaved-with-" + c["resaveEdit"]) if c.get("resaveEdit") else ""
+        big = ":big-dag" if c.get("bigExtra") else ""
         for sig, what in vs:
-            chk.violation(sig + sfx, what + " [%s second %s, phase %s%s]" % (c["id"], c["kind"], c["phase"], sfx and (
+            chk.violation(sig + sfx + big, what + (big and " (DAG of %d steps, file saved again by %s while the first run was active)" % (
+                c["nsteps"] + c["bigExtra"], c["resave"])) + " [%s second %s, phase %s%s]" % (c["id"], c["kind"], c["phase"], sfx and (
                 "; while the first run was active the file was saved again (%s) with %s, first run's definition had name: %r" % (
                     c["resave"], c["resaveEdit"], c.get("nameBefore", "")))), c)
         pp = probe_position(c, r)
